@@ -58,6 +58,27 @@ Theorem C11_raise_counts_nothing : forall s now s',
 Proof. exact raise_forks_nothing. Qed.
 Print Assumptions C11_raise_counts_nothing.
 
+(* "at start-up a burst limit of ten restarts per worker slot per second applies": the limiter
+   Supervisor.body installs for its first ten passes (budget 10 * slots, window one second = w clock
+   units) admits exactly 10 * slots restarts inside one window and raises at the next one *)
+Theorem C11_startup_burst : forall slots w t0 nows now_last,
+    1 <= slots -> t0 <> 0 ->
+    (forall n, In n (nows ++ [now_last]) -> n - t0 < w) ->
+    Z.of_nat (length nows) = 10 * slots - 1 ->
+    steps (burst_state slots w) (t0 :: nows ++ [now_last]) =
+    (mk_rs 0 (Some t0) (Some (10 * slots)) w, repeat false (S (length nows)) ++ [true]).
+Proof. exact startup_burst_budget. Qed.
+Print Assumptions C11_startup_burst.
+
+(* the burst phase as written (facts computed from the AST of Supervisor.body on this run): the pool's
+   own limiter is set aside, a fresh one with budget 10 * pool._processes and window 1 s is used for
+   ten passes 0.1 s apart, and the pool's own limiter is put back *)
+Theorem C11_burst_code_shape :
+  G_pool_shape.burst_budget_is_ten_per_slot_per_second = true /\
+  G_pool_shape.burst_is_ten_passes_then_own_limiter_restored = true.
+Proof. repeat split; reflexivity. Qed.
+Print Assumptions C11_burst_code_shape.
+
 (* pool level: workers that exit with the clean or recycle status never consume budget *)
 Theorem C11_clean_exits_free : forall fuel i codes s,
     Forall (fun c => Pool.clean_code c = true) codes -> (i + fuel <= length codes)%nat ->
